@@ -227,7 +227,7 @@ def has_jsonclass(v):
     return False
 
 
-def run_body(text, sv, dk, rnd, src, world=None, jc=None):
+def run_body(text, sv, dk, rnd, src, world=None, jc=None, pre=None, foreign=None):
     """jc: None (payload free of __jsonclass__), "reject" (the class translator must reject the payload: -32700, nothing
     runs) or "ok" (descriptors of side-effect-free classes only: judged for C02 only)."""
     world = world or World(sv, rnd)
@@ -236,10 +236,20 @@ def run_body(text, sv, dk, rnd, src, world=None, jc=None):
         return None
     if jc == "reject":
         bk, entries = "unparseable", []
-    world.calls.clear()
+    if pre is None:
+        world.calls.clear()
+    elif foreign:
+        for fa_ in foreign:
+            world.calls.pop(fa_, None)         # (executions caused by the OTHER thread's request are not this one's)
     out = {"raised": False, "exc": "", "kind": "empty", "array": False, "replies": []}
     try:
-        res = world.d._marshaled_dispatch(text, world.custom if dk == "custom" else None)
+        if pre is not None:
+            # the dispatch took place elsewhere (under an interleaving with another request): ("ok", text) | ("exc", what)
+            if pre[0] != "ok":
+                raise RuntimeError(pre[1])
+            res = pre[1]
+        else:
+            res = world.d._marshaled_dispatch(text, world.custom if dk == "custom" else None)
         if not isinstance(res, str):
             out.update(kind="nonjson", exc="returned " + type(res).__name__)
         elif res == "":
@@ -386,6 +396,40 @@ def gen_hist(n, rnd):
     return recs
 
 
+def gen_interleaved(n, rnd, limit):
+    """Two requests served by ONE dispatcher on two threads: the second one complete between two lines of the first
+    (harness/interleave.py).  Each reply is judged against its own request, as if it had been served alone."""
+    from harness import interleave
+    recs = []
+    valid = ["ok", "ok", "raise", "unknown", "inst_pub", "inst_nested", "retfault", "convfail"]
+    for _ in range(n):
+        sv, dk = rnd.choice("12"), rnd.choice(["default", "default", "custom"])
+        world = World(sv, rnd)
+        if rnd.random() < 0.3 and sv == "2":
+            world.cfg = world.d.json_config = jsonrpclib.config.DEFAULT
+            world.cfg0 = cfg_snapshot(world.cfg)
+        ea = make_entry(dict(random_entry_class(rnd), obj=True), 1, rnd)
+        eb = make_entry(dict(random_entry_class(rnd), obj=True, mc=rnd.choice(valid), pc=rnd.choice(["absent", "container"])), 2, rnd)
+        while alias_of(eb.get("method")) != 2:           # (its executions must be attributable to it by the alias)
+            eb = make_entry(dict(random_entry_class(rnd), obj=True, mc=rnd.choice(valid), pc=rnd.choice(["absent", "container"])), 2, rnd)
+        ta = dumps(ea if rnd.random() < 0.8 else [ea, make_entry(dict(random_entry_class(rnd), obj=True), 3, rnd)], rnd)
+        tb = dumps(eb, rnd)
+        custom = world.custom if dk == "custom" else None
+        fa = lambda: world.d._marshaled_dispatch(ta, custom)
+        fb = lambda: world.d._marshaled_dispatch(tb, custom)
+        npts = interleave.points(fa)
+        for k in interleave.sample_points(npts, limit, rnd):
+            world.calls.clear()
+            ra, rb, fired = interleave.run(fa, fb, k)
+            snap = dict(world.calls)
+            r1 = run_body(ta, sv, dk, rnd, "interleaved", world=world, pre=ra, foreign=(2,))
+            world.calls.clear()
+            world.calls.update(snap)
+            r2 = run_body(tb, sv, dk, rnd, "interleaved", world=world, pre=rb, foreign=(0, 1, 3))
+            recs += [r for r in (r1, r2) if r]
+    return recs
+
+
 def dumps(v, rnd):
     return json.dumps(v, ensure_ascii=rnd.random() < 0.5, separators=rnd.choice([(",", ":"), (", ", ": ")]))
 
@@ -463,6 +507,9 @@ if __name__ == "__main__":
     elif mode == "batch":
         n, out, seed = int(sys.argv[2]), sys.argv[3], int(sys.argv[4])
         recs = gen_batch(n, random.Random(seed))
+    elif mode == "il":
+        n, out, seed = int(sys.argv[2]), sys.argv[3], int(sys.argv[4])
+        recs = gen_interleaved(n, random.Random(seed), 10)
     else:
         n, out, seed = int(sys.argv[2]), sys.argv[3], int(sys.argv[4])
         recs = gen_fuzz(n, random.Random(seed))
